@@ -441,11 +441,11 @@ Proof.
 Qed.
 
 Lemma enabled_example :
-  let sub := Chart "sub" "1.0.0" [("enabled", VBool true)] None [] None ["templates/p.yaml"] false in
+  let sub := Chart "sub" "1.0.0" [("enabled", VBool true)] None [] None ["templates/p.yaml"] [] in
   let top := Chart "top" "1.0.0" [("tags", VMap [("t1", VBool true)])] None [sub]
                (Some [mkDep "sub" "*" "a1.enabled" ["t1"] "a1" false [];
                       mkDep "sub" "*" "a2.missing,a2.str" ["t0"; "t1"] "a2" false []])
-               ["templates/p.yaml"] false in
+               ["templates/p.yaml"] [] in
   let v := [("a1", VMap [("enabled", VBool false)]); ("a2", VMap [("str", VStr "yes")]); ("tags", VMap [("t0", VBool false)])] in
   NoDup (map dname (resolved_reqs [mkDep "sub" "*" "a1.enabled" ["t1"] "a1" false [];
                                    mkDep "sub" "*" "a2.missing,a2.str" ["t0"; "t1"] "a2" false []]))
@@ -462,3 +462,156 @@ Proof.
   - simpl. repeat constructor; simpl; intuition discriminate.
   - vm_compute. split; reflexivity.
 Qed.
+
+(* ---------- CRDs: a disabled dependency contributes none ---------- *)
+
+(* CRD objects come from the chart's own crds/ or from a chart kept in its dependency list *)
+Lemma crds_from_kept : forall c root pp o,
+  In o (crd_objects c root pp) ->
+  let full := chart_full_path root pp (cname c) in
+  (exists f, In f (ccrds c) /\ o = (f, full ++ "/" ++ f))
+  \/ (exists d, In d (cdeps c) /\ In o (crd_objects d false full)).
+Proof.
+  intros [n ver vs sch deps md tpls crds] root pp o Hin. simpl in *.
+  apply in_app_or in Hin as [Hin|Hin].
+  - left. apply in_map_iff in Hin as (f & <- & Hf). now exists f.
+  - right. induction deps as [|d t IH]; simpl in Hin; [contradiction|].
+    apply in_app_or in Hin as [Hin|Hin].
+    + exists d. split; [now left|exact Hin].
+    + destruct (IH Hin) as (d' & Hd & Hp). exists d'. split; [now right|exact Hp].
+Qed.
+
+Lemma pde_keeps_crds : forall compat c v path c', pde compat c v path = Ok c' -> ccrds c' = ccrds c.
+Proof.
+  intros compat c v path c' H. rewrite pde_unfold in H. unfold pde_level in H.
+  assert (Hb : pde_body compat c (kids_of compat c) v path = Ok c' -> ccrds c' = ccrds c).
+  { clear H. unfold pde_body. intros H.
+    destruct (CoalesceValues _ v); [|discriminate].
+    destruct (process_kept _ _ _); [|discriminate]. injection H as <-. destruct c; reflexivity. }
+  destruct (cmdeps c); [now apply Hb|]. destruct (kids_of compat c); [|now apply Hb].
+  now injection H as <-.
+Qed.
+
+Lemma disabled_no_crds : forall compat c v path c',
+  pde compat c v path = Ok c' ->
+  let reqs := resolved_reqs (mdeps_list c) in
+  let ks := resolved_kids compat (kids_of compat c) (mdeps_list c) in
+  exists cvals,
+    CoalesceValues (set_deps c (map fst ks)) v = Ok cvals
+    /\ forall r, In r reqs -> enabled_spec cvals path r = false ->
+       forall root pp o, In o (crd_objects c' root pp) ->
+         let full := chart_full_path root pp (cname c') in
+         (exists f, In f (ccrds c) /\ o = (f, full ++ "/" ++ f))
+         \/ (exists d, In d (cdeps c') /\ cname d <> dname r /\ In o (crd_objects d false full)).
+Proof.
+  intros compat c v path c' H reqs ks.
+  destruct (disabled_vanish compat c v path c' H) as (cvals & Hc & Hdis & _).
+  exists cvals. split; [exact Hc|]. intros r Hin Hs root pp o Ho.
+  destruct (Hdis r Hin Hs) as (Hnc & _).
+  destruct (crds_from_kept c' root pp o Ho) as [(f & Hf & E)|(d & Hd & Hp)].
+  - left. exists f. rewrite <- (pde_keeps_crds _ _ _ _ _ H). now split.
+  - right. exists d. repeat split; try assumption. intros E. apply Hnc. rewrite <- E. now apply in_map.
+Qed.
+
+(* import-values processing does not touch the CRDs *)
+Section ChartInd2.
+  Variable P : chart -> Prop.
+  Hypothesis H : forall n ver vals sch deps md tpls crds,
+      Forall P deps -> P (Chart n ver vals sch deps md tpls crds).
+  Fixpoint chart_ind2 (c : chart) : P c :=
+    match c with
+    | Chart n ver vals sch deps md tpls crds =>
+        H n ver vals sch deps md tpls crds
+          ((fix go (ds : list chart) : Forall P ds :=
+              match ds with
+              | [] => Forall_nil _
+              | d :: t => Forall_cons d (chart_ind2 d) (go t)
+              end) deps)
+    end.
+End ChartInd2.
+
+Fixpoint pdiv_list (ds : list chart) : res (list chart) :=
+  match ds with
+  | [] => Ok []
+  | d :: t => match pdiv d with
+              | Err e => Err e
+              | Ok d' => match pdiv_list t with Err e => Err e | Ok l => Ok (d' :: l) end
+              end
+  end.
+
+Lemma pdiv_unfold : forall c,
+  pdiv c = match pdiv_list (cdeps c) with
+                  | Err e => Err e
+                  | Ok deps' => process_import_values (set_deps c deps')
+                  end.
+Proof.
+  intros [n ver vals sch deps md tpls crds]. simpl.
+  assert (E : (fix go (ds : list chart) : res (list chart) :=
+                 match ds with
+                 | [] => Ok []
+                 | d :: t => match pdiv d with
+                             | Err e => Err e
+                             | Ok d' => match go t with Err e => Err e | Ok l => Ok (d' :: l) end
+                             end
+                 end) deps = pdiv_list deps).
+  { induction deps as [|d t IH]; simpl; [reflexivity|]. now rewrite IH. }
+  rewrite E. reflexivity.
+Qed.
+
+Lemma piv_keeps : forall c c', process_import_values c = Ok c' ->
+  cname c' = cname c /\ cdeps c' = cdeps c /\ ccrds c' = ccrds c.
+Proof.
+  intros c c' H. unfold process_import_values in H.
+  destruct (cmdeps c); [|injection H as <-; auto].
+  destruct (MergeValues c []); [|discriminate].
+  destruct (import_reqs _ _ _); [|discriminate]. injection H as <-. destruct c; auto.
+Qed.
+
+Lemma crd_objects_congr : forall c c' root pp,
+  cname c' = cname c -> ccrds c' = ccrds c ->
+  Forall2 (fun d d' => forall pp', crd_objects d' false pp' = crd_objects d false pp') (cdeps c) (cdeps c') ->
+  crd_objects c' root pp = crd_objects c root pp.
+Proof.
+  intros [n ver vals sch deps md tpls crds] [n' ver' vals' sch' deps' md' tpls' crds'] root pp. simpl.
+  intros -> -> HF. f_equal. induction HF as [|d d' t t' Hd _ IH]; simpl; [reflexivity|].
+  now rewrite Hd, IH.
+Qed.
+
+Lemma pdiv_keeps_crds : forall c c',
+  pdiv c = Ok c' -> cname c' = cname c /\ forall root pp, crd_objects c' root pp = crd_objects c root pp.
+Proof.
+  intros c. induction c as [n ver vals sch deps md tpls crds IH] using chart_ind2.
+  intros c' H. rewrite pdiv_unfold in H. simpl in H.
+  destruct (pdiv_list deps) as [deps'|] eqn:El; [|discriminate].
+  destruct (piv_keeps _ _ H) as (Hn & Hd & Hc). simpl in Hn, Hd, Hc.
+  split; [exact Hn|]. intros root pp.
+  apply (crd_objects_congr (Chart n ver vals sch deps md tpls crds) c' root pp); [exact Hn|exact Hc|].
+  cbn [cdeps]. rewrite Hd.
+  clear H Hn Hd Hc. revert deps' El. induction IH as [|d t Hd _ IHt]; intros deps' El; simpl in El.
+  - injection El as <-. constructor.
+  - destruct (pdiv d) as [d'|] eqn:Ed; [|discriminate].
+    destruct (pdiv_list t) as [l|] eqn:Et; [|discriminate]. injection El as <-.
+    constructor; [|now apply IHt].
+    intros pp'. destruct (Hd d' eq_refl) as (Hn' & Hc'). apply Hc'.
+Qed.
+
+Lemma process_dependencies_crds : forall compat c v c'',
+  process_dependencies compat c v = Ok c'' ->
+  exists c', pde compat c v "" = Ok c' /\ cname c'' = cname c'
+             /\ forall root pp, crd_objects c'' root pp = crd_objects c' root pp.
+Proof.
+  intros compat c v c'' H. unfold process_dependencies in H.
+  destruct (pde compat c v "") as [c'|] eqn:E; [|discriminate].
+  exists c'. split; [reflexivity|]. now apply pdiv_keeps_crds.
+Qed.
+
+Lemma crds_example :
+  let sub := Chart "sub" "1.0.0" [] None [] None [] ["crds/s.yaml"] in
+  let top := Chart "top" "1.0.0" [] None [sub]
+               (Some [mkDep "sub" "*" "a1.enabled" [] "a1" false []; mkDep "sub" "*" "a2.enabled" [] "a2" false []])
+               [] ["crds/t.yaml"] in
+  match process_dependencies (fun _ _ => true) top [("a1", VMap [("enabled", VBool false)])] with
+  | Ok c' => crd_objects c' true "" = [("crds/t.yaml", "top/crds/t.yaml"); ("crds/s.yaml", "top/charts/a2/crds/s.yaml")]
+  | Err _ => False
+  end.
+Proof. vm_compute. reflexivity. Qed.
